@@ -6,9 +6,9 @@ CONSTANTS
   Dev = {}
   LENS = {1, 171, 355}
   HDRS = {"pts"}
-  AFS = {"none", "raipcr", "big", "bigrai"}
+  AFS = {"none", "raipcr", "big", "bigrai", "huge"}
   BIGS = {FALSE, TRUE}
-  PKTS = {"null", "toobig"}
+  PKTS = {"null", "toobig", "hugeaf"}
 VIEW View
 ACTION_CONSTRAINT ExportEdge
 CHECK_DEADLOCK FALSE
